@@ -299,6 +299,8 @@ def update(
     for k, v in new.items():
         k, v = check_key_val(k, v)
         k = canonical_name(k, old)
+        # the defaults may spell the key with the other separator
+        dk = canonical_name(k, defaults) if defaults else k
 
         if isinstance(v, Mapping):
             if k not in old or old[k] is None or not isinstance(old[k], dict):
@@ -307,7 +309,7 @@ def update(
                 old[k],
                 v,
                 priority=priority,
-                defaults=defaults.get(k) if defaults else None,
+                defaults=defaults.get(dk) if defaults else None,
             )
         else:
             if (
@@ -316,8 +318,8 @@ def update(
                 or (
                     priority == "new-defaults"
                     and defaults
-                    and k in defaults
-                    and defaults[k] == old[k]
+                    and dk in defaults
+                    and defaults[dk] == old[k]
                 )
             ):
                 old[k] = v
